@@ -4,6 +4,10 @@ import json, os
 HERE = os.path.dirname(os.path.dirname(os.path.abspath(__file__)))
 
 CHECKS = {
+ 'C13': dict(level='model_checking', design='2/C13',
+   technique='bounded-exhaustive enumeration of path strings x request kinds and explicit-state search over sequences of link/dir-creating requests against the real SFTP server code under a filesystem-call monitor; exhaustive enumeration of hostile SCP record sequences and SFTP listings against the real download code under the same monitor',
+   text='Server: every path of <= 2 (thorough 3) components over a 9-symbol alphabet with 0-3 leading slashes x 22 request kinds x 3 prepared trees; every sequence of <= 2 (thorough 3) symlink/mkdir/rename requests followed by 52 accesses, states deduplicated by tree structure. A monitor wraps every path-taking os call and open(): nothing outside the root may be opened, listed or modified and no reply may carry outside content. Downloads: every SCP record sequence up to length 3 over {C,D,E,T,warning,fatal} x 11 hostile names, and recursive get/mget against listings of 1-2 hostile entries (name x type, duplicates, nested hostile names): nothing outside the caller-named destination may be created or modified.',
+   note='pre-existing links pointing outside are followed by design; stat-family probes outside the root are recorded as observations (they are not audit events) unless their result is returned to the client; one open known finding (relative link moved by rename).'),
  'C14': dict(level='model_checking', design='2/C14',
    technique='deviation-bounded DFS over reply orders and per-reply faults of concurrent real SFTPClient calls over a model server; exhaustive enumeration of request type x shape x version against the real SFTPServerHandler with a probe request; exhaustive flag-subset enumeration of the attribute codecs with an independent layout encoder',
    text='(a) 2-3 concurrent client calls; any outstanding request may be answered next, correctly or once with a wrong reply type, unknown/duplicate/foreign id, or a caller is cancelled and its reply arrives late: every caller ends with its own value or an SFTPError, and with only correct replies always with its own value. (b) For versions 3-6 every request type and extension in well-formed, every-truncation and trailing-byte shape gets exactly one reply with its id and a legal type, unknown types get OP_UNSUPPORTED, and a following request is still served; 16 errno values and 19 SFTPError classes map to the expected status per version. (c) decode(encode(x)) == x and encode layout == independent encoder for every subset of attribute field groups per version.',
